@@ -289,6 +289,26 @@ def gen_scenario(ch, prof):
                 up = f'r{i}'
             ups.append(up)
         sink('j', ups, unique=True)
+    elif shape == 'eph_rejoin':
+        # the docstring topology of zeromq.py: A -> B -> C ; A ->? D -> E ; F: [C, E?] ; G: F
+        source('s0')
+        b = relay('b', 's0', base='main', may_skip=False)
+        c = relay('c', 'b', base='c', may_skip=False)
+        c['_unique_names'] = c['form'] != 'frame'
+        d = relay('d', 's0', base='main', may_skip=True)
+        nodes['d']['sources'][0]['eph'] = 1
+        nodes['d']['proc_ns'] = [ch.pick('gen', [0, 50, 300, 2000]) * MS]
+        e = relay('e', 'd', base='e', may_skip=True)
+        e['_unique_names'] = e['form'] != 'frame'
+        csub = gen_sub(ch, prof, nodes['c']['out'], rename_to=None if c['_unique_names'] else 'c')
+        esub = gen_sub(ch, prof, nodes['e']['out'], rename_to=None if e['_unique_names'] else 'e')
+        if csub == '*' and esub == '*':
+            esub = None
+        f = {'sources': [{'from': 'c', 'sub': csub}, {'from': 'e', 'sub': esub, 'eph': 1}],
+             'out': gen_outs(ch, prof, 'main'), 'proc_ns': gen_proc_pattern(ch, prof)}
+        gen_behaviour(ch, prof, f, may_skip=False)
+        add('f', f)
+        sink('g', ['f'])
     elif shape == 'balance':
         spec = source('s0')
         nb = ch.rng_int('gen', 2, 4)
@@ -321,7 +341,7 @@ def gen_scenario(ch, prof):
 
     # ephemeral side listeners
     if prof.ephemeral:
-        pubs = [nid for nid in order if nodes[nid].get('has_output', True)]
+        pubs = [nid for nid in order if nodes[nid].get('has_output', True) and not nodes[nid].get('side')]
         n = 0
         for up in pubs:
             for _ in range(ch.rng_int('gen', 0, prof.ephemeral)):
@@ -329,6 +349,8 @@ def gen_scenario(ch, prof):
                 sub = gen_sub(ch, prof, nodes[up]['out'])
                 e = {'sources': [{'from': up, 'sub': sub, 'eph': eph}], 'has_output': False,
                      'proc_ns': [ch.pick('gen', [0, 50, 500, 5000, 10 ** 6]) * MS], 'side': True}
+                if _chance(ch, 1, 4):
+                    e['start_delay_ns'] = ch.pick('gen', [100, 10, 700, 2500]) * MS
                 add(f'e{n}', e)
                 n += 1
 
@@ -364,7 +386,17 @@ def gen_faults(ch, prof, sc):
         kind = ch.pick('fault', timed)
         at = ch.rng_int('fault', 0, span_ms) * MS
         plus = ch.rng_int('fault', 0, 40)
-        if kind == 'kill':
+        if kind == 'kill_side' or kind == 'stall_side':
+            side = [n for n in order if sc['nodes'][n].get('side')]
+            if not side:
+                continue
+            node = ch.pick('fault', side)
+            if kind == 'kill_side':
+                out.append({'kind': 'kill', 'node': node, 'at_ns': at, 'plus_steps': plus, 'restart_after_ns': None})
+            else:
+                out.append({'kind': 'stall', 'node': node, 'at_ns': at, 'plus_steps': plus,
+                            'dur_ns': ch.pick('fault', [6000, 300, 20000, 10 ** 6]) * MS})
+        elif kind == 'kill':
             node = ch.pick('fault', order)
             ra = ch.pick('fault', [0, 200, 1500, 7000, None])
             out.append({'kind': 'kill', 'node': node, 'at_ns': at, 'plus_steps': plus,
@@ -432,4 +464,72 @@ def gen_c04(ch, prof, stall_s=None):
     sc['settle_ns'] = 10 ** 18
     sc['t_end_ns'] = 400 * SEC
     sc['max_steps'] = 150_000
+    return sc
+
+
+def gen_c06(ch, prof):
+    """Synchronized pipeline, endless source, exactly one fault class (or none)."""
+    sc = gen_scenario(ch, prof)
+    nodes, order = sc['nodes'], sc['order']
+    knobs = sc['knobs']
+    for nid in order:
+        if nodes[nid].get('src'):
+            nodes[nid]['n_frames'] = 10 ** 9
+            nodes[nid]['period_ns'] = ch.pick('gen', [50, 20, 100]) * MS
+            nodes[nid].pop('skip', None)
+    knobs['ZMQ_CONN_TIMEOUT'] = ct = ch.pick('gen', [2000, 1000, 5000])
+    consumers = {}
+    for nid in order:
+        for s in nodes[nid].get('sources') or []:
+            consumers.setdefault(s['from'], []).append(nid)
+
+    def required_by(nid):
+        out = []
+        for s in nodes[nid].get('sources') or []:
+            req = nodes[s['from']].get('outputs_required') or []
+            if isinstance(req, str):
+                req = [x.strip() for x in req.split(',')]
+            if nid in req:
+                out.append(s['from'])
+        return out
+
+    sinks = [n for n in order if not nodes[n].get('has_output', True)]
+    nonreq_sinks = [n for n in sinks if not required_by(n)]
+    req_nodes = [n for n in order if required_by(n)]
+    at = ch.rng_int('fault', 300, 3000) * MS
+    plus = ch.rng_int('fault', 0, 60)
+    classes = ['none', 'restart']
+    # a publisher with no connected output at all waits for one (start-up behaviour), so the silent death of the *sole*
+    # consumer of a publisher is not something frames can "flow again" after: only victims with a sibling consumer
+    die_candidates = [n for n in nonreq_sinks
+                      if all(len(consumers.get(s['from'], [])) > 1 for s in nodes[n].get('sources') or [])]
+    if nonreq_sinks:
+        classes += ['stall_nonreq']
+    if die_candidates:
+        classes += ['die_nonreq']
+    if req_nodes:
+        classes += ['req_returns']
+    cls = classes[ch.weighted('fault', [1, 6] + [2] * (len(classes) - 2))]
+    sc['fault_class'] = cls
+    faults = []
+    if cls == 'restart':
+        victim = ch.pick('fault', order)
+        delay = ch.pick('fault', [0, 200, int(ct * 1.4)]) * MS
+        faults.append({'kind': 'kill', 'node': victim, 'at_ns': at, 'plus_steps': plus, 'restart_after_ns': delay})
+    elif cls == 'stall_nonreq':
+        victim = ch.pick('fault', nonreq_sinks)
+        faults.append({'kind': 'stall', 'node': victim, 'at_ns': at, 'plus_steps': plus,
+                       'dur_ns': int(ct * ch.pick('fault', [13, 20, 30]) / 10) * MS})
+    elif cls == 'die_nonreq':
+        victim = ch.pick('fault', die_candidates)
+        faults.append({'kind': 'kill', 'node': victim, 'at_ns': at, 'plus_steps': plus, 'restart_after_ns': None})
+    elif cls == 'req_returns':
+        victim = ch.pick('fault', req_nodes)
+        faults.append({'kind': 'kill', 'node': victim, 'at_ns': at, 'plus_steps': plus,
+                       'restart_after_ns': ch.pick('fault', [int(ct * 1.4), 200, int(ct * 2.2)]) * MS})
+    sc['faults'] = faults
+    sc['n_frames'] = 10 ** 9
+    sc['settle_ns'] = 10 ** 18
+    sc['t_end_ns'] = 120 * SEC
+    sc['max_steps'] = 400_000
     return sc
